@@ -749,6 +749,15 @@ func (t *transport) Write(_ context.Context, conn net.Conn, bufs net.Buffers) er
 	case err := <-req.done:
 		return err
 	case <-gs.genDone:
+		// Both channels can be ready at once (the generation ended right after the engine reported) and
+		// select then picks at random. A result that is already in IS the outcome of this send: a message
+		// the peer acknowledged in full must not be reported, and accounted, as never sent.
+		select {
+		case err := <-req.done:
+			return err
+		default:
+		}
+
 		return hsms.ErrConnClosed
 	}
 }
